@@ -169,6 +169,14 @@ func buildRecord(c RecCase, setID uint, rng *rand.Rand) []byte {
 		digF = stdAlphabet(digest)
 	case "nopad":
 		digF = strings.TrimRight(b64(digest), "=")
+	case "same-params-other-length":
+		o := ps
+		if ps.Algo == "argon" {
+			o.Length = 16
+			digF = b64(o.Digest([]byte(rightPw), salt))
+		} else {
+			digF = b64(digest[:16]) // the scrypt construction has a fixed length: a shortened tag
+		}
 	}
 	line := strings.Join([]string{algo, tm, param, saltF, digF}, ":")
 	aux := "totp: QUJD\n"
@@ -217,9 +225,12 @@ func runRecord(dir string, e *RecEdge, seed int64) {
 			os.RemoveAll(dir)
 			base := filepath.Join(dir, "base")
 			must(os.MkdirAll(base, 0700))
-			content := buildRecord(e.Case, setID, rng)
+			// the canonical record and the case's content share salt and digest wherever the case says "orig" / "match"
+			sseed := rng.Int63()
+			content := buildRecord(e.Case, setID, rand.New(rand.NewSource(sseed)))
 			file := filepath.Join(base, "target"+ext)
-			must(os.WriteFile(file, content, 0600))
+			canonical := buildRecord(RecCase{"match", "dec", "known", "orig", "match", "exact"}, setID, rand.New(rand.NewSource(sseed)))
+			must(os.WriteFile(file, canonical, 0600))
 			boss, _ := concrete.MakeRecord(sets[1], []byte("boss"), 1500000000, rng)
 			must(os.WriteFile(filepath.Join(base, "boss.admin"), []byte(boss), 0600))
 			cfg := filepath.Join(dir, "store.yaml")
@@ -229,6 +240,14 @@ func runRecord(dir string, e *RecEdge, seed int64) {
 			key := fmt.Sprintf("%+v", e.Case)
 			key = key[1 : len(key)-1]
 			algo := sets[setID].Algo
+			// history: the file first holds a canonical record and the user logs in successfully with this very
+			// store object; only then the file is replaced by the case's content (tampering / foreign writer)
+			guarded("C02", "prime:"+key, e, func() {
+				if ok, _, _, _, _ := d.Authenticate("target", rightPw); !ok {
+					violate("C02", "canonical-record-rejected:prime:"+algo, "a canonical record does not authenticate", e)
+				}
+			})
+			must(os.WriteFile(file, content, 0600))
 			snap := concrete.Snapshot(base)
 			mu.Lock()
 			execs += 8
